@@ -350,7 +350,11 @@ func parent(ck *Check, tier string, seed int64, dl time.Duration) {
 			cmd := exec.Command(self, ck.ID, "--tier", tier, "--worker", fmt.Sprintf("%d/%d", i, n), "--out", f, "--deadline", dl.String())
 			cmd.Stdout = lf
 			cmd.Stderr = lf
-			cmd.Env = append(os.Environ(), "GOMAXPROCS=2")
+			gmp := os.Getenv("VERIF_WORKER_GOMAXPROCS")
+			if gmp == "" {
+				gmp = "2"
+			}
+			cmd.Env = append(os.Environ(), "GOMAXPROCS="+gmp)
 			err := cmd.Run()
 			lf.Close()
 			ch <- res{i, err, f, lg}
